@@ -121,7 +121,9 @@ class SMCSampler(MCMCSampler):
         """
         if not self.adaptive:
             beta += beta_step
-            if beta >= 1.0:
+            # Snap to 1 when within rounding of it, otherwise accumulated
+            # floating-point error in n * (1 / n) adds an extra iteration
+            if beta >= 1.0 - 1e-3 * beta_step:
                 beta = 1.0
         else:
             beta_prev = beta
